@@ -28,6 +28,7 @@ type keyTok struct {
 	Type  string
 	Fixed int    // fixed width (0 = variable)
 	Alpha string // alphabet description
+	Src   string // rendered argument (which field feeds this segment)
 }
 
 func (t keyTok) String() string {
@@ -109,7 +110,7 @@ func sprintfShape(p *load.Program, v ssa.Value) ([]keyTok, error) {
 		}
 		at := strip(args[ai]).Type()
 		ai++
-		tok := keyTok{Verb: verb, Type: types.TypeString(at, func(p *types.Package) string { return p.Name() })}
+		tok := keyTok{Verb: verb, Type: types.TypeString(at, func(p *types.Package) string { return p.Name() }), Src: facts.Term(args[ai-1])}
 		switch verb {
 		case "%d":
 			b, ok := at.Underlying().(*types.Basic)
@@ -118,6 +119,38 @@ func sprintfShape(p *load.Program, v ssa.Value) ([]keyTok, error) {
 			}
 			tok.Alpha = "[0-9]"
 		case "%s":
+			// a key built on top of another key builder of the repository: `%s` of a []byte
+			// (or string) returned by a function whose single return is itself such a Sprintf —
+			// splice that builder's shape in
+			if k, ok := strip(args[ai-1]).(*ssa.Const); ok && k.Value != nil && k.Value.Kind() == constant.String {
+				// a constant namespace segment
+				out = append(out, keyTok{Lit: constant.StringVal(k.Value)})
+				continue
+			}
+			if tok.Type == "[]byte" || tok.Type == "string" {
+				inner := strip(args[ai-1])
+				if cv, ok := inner.(*ssa.Convert); ok {
+					inner = strip(cv.X)
+				}
+				if ic, ok := inner.(*ssa.Call); ok {
+					if callee := ic.Call.StaticCallee(); callee != nil && len(callee.Blocks) > 0 && callee.Pkg != nil && strings.HasPrefix(callee.Pkg.Pkg.Path(), NodeMod) {
+						var rets []*ssa.Return
+						eachInstr(callee, func(i ssa.Instruction) {
+							if r, ok := i.(*ssa.Return); ok {
+								rets = append(rets, r)
+							}
+						})
+						if len(rets) == 1 && len(rets[0].Results) == 1 {
+							sub, err := sprintfShape(p, rets[0].Results[0])
+							if err != nil {
+								return nil, fmt.Errorf("%%s of %s: %v", facts.CalleeName(&ic.Call), err)
+							}
+							out = append(out, sub...)
+							continue
+						}
+					}
+				}
+			}
 			if tok.Type != "vaa.Address" {
 				return nil, fmt.Errorf("%%s of type %s is outside the idiom table", tok.Type)
 			}
@@ -335,13 +368,13 @@ func c12(c *Ctx) {
 	_ = wantFields
 	R.Check("C12.key-injective", "C12.key-injective/VAAID.Bytes", c.rel(p.Pos(bytesFn.Pos())), "every variable-width segment of the stored key is terminated by a byte outside its alphabet, or is last: "+shapeString(ks), len(bad) == 0 && len(ks) == 8, strings.Join(bad, "; "))
 	// the four arguments are the four identifier fields in order
+	// field order, flattened through composed key builders
 	var argOrder []string
-	eachInstr(bytesFn, func(i ssa.Instruction) {
-		if cl, ok := i.(*ssa.Call); ok && facts.CalleeName(&cl.Call) == "fmt.Sprintf" {
-			t := facts.Term(cl.Call.Args[1])
-			argOrder = strings.Split(strings.Trim(t, "[]"), ",")
+	for _, t := range keyShape {
+		if t.Verb != "" {
+			argOrder = append(argOrder, t.Src)
 		}
-	})
+	}
 	R.Check("C12.key-injective", "C12.key-injective/VAAID.Bytes/fields", c.rel(p.Pos(bytesFn.Pos())), "the key is built from (EmitterChain, EmitterAddress, TargetChain, Sequence) in that order", strings.Join(argOrder, ",") == "i.EmitterChain,i.EmitterAddress,i.TargetChain,i.Sequence", "arguments: "+strings.Join(argOrder, ","))
 
 	// ---- same-key
